@@ -179,21 +179,22 @@ OpsAfterNew(c, id, typ, mode, ph) ==
 \* enqueue(): returns <<ops', table', pinQ', unpinQ', result>>
 Enqueue(o, tb, pq, uq, c, typ, mode) ==
     IF tb[c] # 0 /\ o[tb[c]].type = typ /\ o[tb[c]].phase \notin {"error", "done"}
-    THEN <<o, tb, pq, uq, "ok">>                                   \* ongoing operation: nil
+    THEN <<o, tb, pq, uq, "ok", <<"dedup", o[tb[c]].type, o[tb[c]].phase>>>>   \* ongoing operation: nil
     ELSE
         LET id == CHOOSE i \in 1..MaxOps :
                      ~Live(o[i]) /\ \A j \in 1..MaxOps : ~Live(o[j]) => i <= j
             o1 == IF tb[c] # 0 THEN [o EXCEPT ![tb[c]].cancelled = TRUE] ELSE o
             q  == IF typ = "pin" THEN pq ELSE uq
+            prev == IF tb[c] = 0 THEN <<"new", "-", "-">> ELSE <<"replace", o[tb[c]].type, o[tb[c]].phase>>
         IN IF Len(q) >= Q
            THEN <<[o1 EXCEPT ![id] = [cid |-> c, type |-> typ, mode |-> mode, phase |-> "error",
                                       cancelled |-> TRUE, err |-> "fullq"]],
-                  [tb EXCEPT ![c] = id], pq, uq, "fullq">>
+                  [tb EXCEPT ![c] = id], pq, uq, "fullq", prev>>
            ELSE <<[o1 EXCEPT ![id] = [cid |-> c, type |-> typ, mode |-> mode, phase |-> "queued",
                                       cancelled |-> FALSE, err |-> "-"]],
                   [tb EXCEPT ![c] = id],
                   IF typ = "pin" THEN Append(pq, id) ELSE pq,
-                  IF typ = "unpin" THEN Append(uq, id) ELSE uq, "ok">>
+                  IF typ = "unpin" THEN Append(uq, id) ELSE uq, "ok", prev>>
 
 CanCreate(o) == \E i \in 1..MaxOps : ~Live(o[i])
 
@@ -217,7 +218,8 @@ TrackLocal(c, m) ==
         /\ table' = r[2] /\ pinQ' = r[3] /\ unpinQ' = r[4] /\ lastRes' = r[5]
     /\ st' = [st EXCEPT ![c] = m]
     /\ ninstr' = ninstr + 1 /\ healthy' = FALSE
-    /\ act' = [name |-> "Track", cid |-> c, kind |-> m]
+    /\ act' = [name |-> "Track", cid |-> c, kind |-> m,
+               br |-> <<Enqueue(ops, table, pinQ, unpinQ, c, "pin", m)[6], lastRes', ipfs[c], st[c]>>]
     /\ UNCHANGED <<ipfs, wk, nfail>>
 
 TrackMeta(c) ==
@@ -235,7 +237,9 @@ TrackRemote(c, m) ==
     /\ CanCreate(ops)
     /\ st' = [st EXCEPT ![c] = "r" \o m]
     /\ ninstr' = ninstr + 1 /\ lastRes' = "ok" /\ healthy' = FALSE
-    /\ act' = [name |-> "Track", cid |-> c, kind |-> "r" \o m]
+    /\ act' = [name |-> "Track", cid |-> c, kind |-> "r" \o m,
+               br |-> <<IF Dedup(c, "remote") THEN "dedup" ELSE IF table[c] = 0 THEN "new" ELSE ops[table[c]].type \o "-" \o ops[table[c]].phase,
+                        ipfs[c], st[c]>>]
     /\ IF Dedup(c, "remote")
          THEN UNCHANGED <<ops, table, wk>>
          ELSE LET id == FreeId IN
@@ -252,7 +256,8 @@ Untrack(c) ==
         /\ table' = r[2] /\ pinQ' = r[3] /\ unpinQ' = r[4] /\ lastRes' = r[5]
     /\ st' = [st EXCEPT ![c] = "none"]
     /\ ninstr' = ninstr + 1 /\ healthy' = FALSE
-    /\ act' = [name |-> "Untrack", cid |-> c]
+    /\ act' = [name |-> "Untrack", cid |-> c,
+               br |-> <<Enqueue(ops, table, pinQ, unpinQ, c, "unpin", "-")[6], lastRes', ipfs[c], st[c]>>]
     /\ UNCHANGED <<ipfs, wk, nfail>>
 
 \* recoverWithPinInfo for one CID given the status it was handed
@@ -260,7 +265,7 @@ RecoverStep(o, tb, pq, uq, c, status) ==
     LET m == IF RecoverUsesStatePin /\ st[c] \in {"rec", "dir"} THEN st[c] ELSE "rec" IN
     CASE status \in {"pin_error", "unexpectedly_unpinned"} -> Enqueue(o, tb, pq, uq, c, "pin", m)
       [] status = "unpin_error"                            -> Enqueue(o, tb, pq, uq, c, "unpin", "-")
-      [] OTHER                                              -> <<o, tb, pq, uq, "ok">>
+      [] OTHER                                              -> <<o, tb, pq, uq, "ok", <<"nothing", status, "-">>>>
 
 Recover(c) ==
     /\ Budget
@@ -269,7 +274,8 @@ Recover(c) ==
         /\ ops' = Collect(r[1], r[2], r[3], r[4], wk)
         /\ table' = r[2] /\ pinQ' = r[3] /\ unpinQ' = r[4] /\ lastRes' = r[5]
     /\ ninstr' = ninstr + 1 /\ healthy' = FALSE
-    /\ act' = [name |-> "Recover", cid |-> c]
+    /\ act' = [name |-> "Recover", cid |-> c,
+               br |-> <<RecoverStep(ops, table, pinQ, unpinQ, c, StatusOf(c))[6], lastRes', ipfs[c], st[c]>>]
     /\ UNCHANGED <<st, ipfs, wk, nfail>>
 
 \* RecoverAll: StatusAll(all) first, then recoverWithPinInfo per listed item
@@ -277,10 +283,10 @@ Recover(c) ==
 \*  chosen permutation).  It stops at the first error, as coded.
 RECURSIVE RecAll(_, _, _, _, _, _)
 RecAll(seq, o, tb, pq, uq, sa) ==
-    IF seq = <<>> THEN <<o, tb, pq, uq, "ok">>
+    IF seq = <<>> THEN <<o, tb, pq, uq, "ok", <<>>>>
     ELSE LET c == Head(seq)
              r == IF sa[c] = "absent" \/ ~(\E i \in 1..MaxOps : ~Live(o[i]))
-                     THEN <<o, tb, pq, uq, "ok">>
+                     THEN <<o, tb, pq, uq, "ok", <<>>>>
                      ELSE RecoverStep(o, tb, pq, uq, c, sa[c])
          IN IF r[5] # "ok" THEN r ELSE RecAll(Tail(seq), r[1], r[2], r[3], r[4], sa)
 
@@ -323,7 +329,7 @@ Start(w) ==
              /\ ops' = Collect(ops, table, pinQ, unpinQ, wk')
         ELSE /\ wk' = [wk EXCEPT ![w].pc = "call"]
              /\ ops' = [ops EXCEPT ![id].phase = "inprogress"]
-    /\ act' = [name |-> "Start", w |-> w]
+    /\ act' = [name |-> "Start", w |-> w, br |-> <<ops[wk[w].op].cancelled, ops[wk[w].op].type>>]
     /\ UNCHANGED <<st, ipfs, table, pinQ, unpinQ, ninstr, nfail, lastRes, healthy>>
 
 \* the daemon executes the call (its linearization point)
@@ -339,7 +345,8 @@ Apply(w) ==
         ELSE /\ wk' = [wk EXCEPT ![w].pc = "applied"]
              /\ ipfs' = [ipfs EXCEPT ![c] = IF o.type = "pin" THEN o.mode ELSE "none"]
     /\ healthy' = healthy
-    /\ act' = [name |-> "Apply", cid |-> ops[wk[w].op].cid, op |-> ops[wk[w].op].type]
+    /\ act' = [name |-> "Apply", cid |-> ops[wk[w].op].cid, op |-> ops[wk[w].op].type,
+               br |-> <<ops[wk[w].op].mode, ipfs[ops[wk[w].op].cid], st[ops[wk[w].op].cid]>>]
     /\ UNCHANGED <<st, ops, table, pinQ, unpinQ, ninstr, nfail, lastRes>>
 
 \* the daemon (or the transport) fails the call
@@ -360,7 +367,7 @@ ReturnOk(w) ==
 Abort(w) ==
     /\ wk[w].pc \in {"call", "applied"} /\ ops[wk[w].op].cancelled
     /\ wk' = [wk EXCEPT ![w].pc = "ret_err"]
-    /\ act' = [name |-> "Abort", w |-> w]
+    /\ act' = [name |-> "Abort", w |-> w, br |-> <<wk[w].pc, ops[wk[w].op].type>>]
     /\ UNCHANGED <<st, ipfs, ops, table, pinQ, unpinQ, ninstr, nfail, lastRes, healthy>>
 
 \* error path of applyPinF (workers) / Track (remote thread)
@@ -375,7 +382,7 @@ HandleErr(w) ==
                     THEN ops' = Collect(ops, table, pinQ, unpinQ, wk')
                     ELSE ops' = Collect([ops EXCEPT ![id].phase = "error", ![id].err = "ipfs", ![id].cancelled = TRUE],
                                         table, pinQ, unpinQ, wk')
-    /\ act' = [name |-> "HandleErr", w |-> w]
+    /\ act' = [name |-> "HandleErr", w |-> w, br |-> <<ops[wk[w].op].cancelled, ops[wk[w].op].type, w = RemoteT>>]
     /\ UNCHANGED <<st, ipfs, table, pinQ, unpinQ, ninstr, nfail, lastRes, healthy>>
 
 \* success: SetPhase(Done); Cancel()
@@ -393,7 +400,8 @@ Clean(w) ==
         /\ table' = IF table[c] = id THEN [table EXCEPT ![c] = 0] ELSE table
         /\ wk' = [wk EXCEPT ![w] = Idle]
         /\ ops' = Collect(ops, table', pinQ, unpinQ, wk')
-    /\ act' = [name |-> "Clean", w |-> w]
+    /\ act' = [name |-> "Clean", w |-> w,
+               br |-> <<table[ops[wk[w].op].cid] = wk[w].op, ops[wk[w].op].type, st[ops[wk[w].op].cid], ipfs[ops[wk[w].op].cid]>>]
     /\ UNCHANGED <<st, ipfs, pinQ, unpinQ, ninstr, nfail, lastRes, healthy>>
 
 Internal == \E w \in Workers : Dequeue(w) \/ Start(w) \/ Abort(w) \/ HandleErr(w) \/ Finish(w) \/ Clean(w)
@@ -483,6 +491,14 @@ TruthfulInv == Quiescent => TruthfulOn(st, ipfs, [c \in CIDS |-> StatusOf(c)])
 NeverStuck == ~(Quiescent /\ healthy /\ \E c \in CIDS : StuckDirOverRec(st, ipfs, c))
 NeverFullQ == ~(lastRes = "fullq" /\ Quiescent)
 NeverRecoveredUnpin == ~(Quiescent /\ healthy /\ nfail > 0 /\ \E c \in CIDS : st[c] = "none" /\ act.name = "Clean")
+
+\* branch coverage: violated the first time a (action, branch tag) pair is seen
+\* (run with -workers 1 -continue: one shortest witness per pair, tools/mkwitness.py)
+CoverNew ==
+    IF "br" \notin DOMAIN act THEN TRUE
+    ELSE LET t == <<act.name, act.br>> IN
+         IF t \in TLCGet(7) THEN TRUE ELSE TLCSet(7, TLCGet(7) \cup {t}) /\ FALSE
+CoverInit == TLCSet(7, {})
 
 \* liveness: once the environment stops, the tracker quiesces
 Settles == <>[](Quiescent \/ ENABLED Env)
